@@ -2,6 +2,7 @@ import Driver.Tensor
 import Driver.OpsDwt
 import WaveletsVerif.Model.Dtcwt
 import WaveletsVerif.Gen.Dims
+import WaveletsVerif.Spec.DtcwtRef
 namespace WV
 variable {α : Type} [Scalar α]
 
@@ -239,6 +240,9 @@ def runDtcwt (op : String) (ps : List Int) (ts : List (Option (T α))) : Res α 
           DTCWTInverse s (boolOf sym) f sz6 sz5 (lch.map fun l => l.getD k [])
             (canon.map fun ob => ob.map fun b => (b.getD a []).getD k [])
       some [some (ofL4 y)]
+  /- specification ops (one column), raw un-reversed filters -/
+  | "spec_colfilter", [], [some h, some x] => .ok [some (ofL1 (Spec.colfilter h.l1 x.l1))]
+  | "spec_coldfilt", [hp], [some ha, some hb, some x] => .ok [some (ofL1 (Spec.coldfilt ha.l1 hb.l1 (boolOf hp) x.l1))]
   | "FWD_J1_bwd", [o, ri, sym, _skip], [some h0, some h1, some dl, dh] => resOfOpt do
       let bands ← (match dh with
         | none => some none
